@@ -55,6 +55,7 @@ func ccScenario(rng *RNG) string {
 	// stubs, so that what put compares with (Addr()) is what the region client reports
 	real := rng.Intn(3) == 0
 	ids := map[hrpc.RegionClient]int{}
+	madeFor := map[hrpc.RegionClient]int{}
 	var all []hrpc.RegionClient
 	isClosed := func(rc hrpc.RegionClient) bool {
 		if c, ok := rc.(*ccConn); ok {
@@ -83,13 +84,8 @@ func ccScenario(rng *RNG) string {
 			for _, r := range rs {
 				ri = append(ri, regIdx[r])
 			}
-			ai := 99
-			for k, a := range ccAddrs {
-				if a == rc.Addr() {
-					ai = k
-				}
-			}
-			es = append(es, ent{ids[rc], strconv.Itoa(ai), ri})
+			// the address this connection was created for (the regionserver it talks to)
+			es = append(es, ent{ids[rc], strconv.Itoa(madeFor[rc]), ri})
 		}
 		sort.Slice(es, func(i, j int) bool { return es[i].id < es[j].id })
 		var parts []string
@@ -133,6 +129,7 @@ func ccScenario(rng *RNG) string {
 					c = &ccConn{id: len(all), addr: ccAddrs[a]}
 				}
 				ids[c] = len(all)
+				madeFor[c] = a
 				all = append(all, c)
 				created = true
 				return c
